@@ -308,8 +308,19 @@ bool kirsch_bounded_kfifo_queue<T, Policies...>::committed(const marked_idx& tai
     return true;
   }
 
-  marked_idx tail_current = _tail.load(std::memory_order_relaxed);
-  marked_idx head_current = _head.load(std::memory_order_relaxed);
+  // head and tail have to be a consistent pair, i.e., both values must have been current at the same time. Otherwise a
+  // tail that is outdated by the time head is read could already have been passed by head - that looks like a wrapped
+  // ring and would let a segment behind head pass as valid.
+  marked_idx tail_current = _tail.load(std::memory_order_acquire);
+  marked_idx head_current;
+  for (;;) {
+    head_current = _head.load(std::memory_order_acquire);
+    const marked_idx tail_check = _tail.load(std::memory_order_acquire);
+    if (tail_check == tail_current) {
+      break;
+    }
+    tail_current = tail_check;
+  }
   if (in_valid_region(tail_old.get(), tail_current.get(), head_current.get())) {
     return true;
   }
